@@ -21,6 +21,7 @@ theorem fresh_alloc (s : Store) (op : SOp) (j : Nat) (h : (s.step op).2 = some j
   | add i it => simp [Store.step] at h
   | remove i k => simp [Store.step] at h
   | edit i k => simp only [Store.step] at h; split at h <;> simp at h
+  | assign i items => simp [Store.step] at h
 
 /-- a block constructed without items starts empty, no matter what was done to earlier instances -/
 theorem new_without_items_is_empty (s : Store) :
@@ -38,9 +39,35 @@ theorem separation (s : Store) (i j : Nat) (h : i ≠ j) (it k : Nat) :
   simp only [Store.step, Store.content]
   constructor <;> rw [List.getElem?_modify] <;> simp [h]
 
+/-- list assignment installs exactly the given items in the addressed instance and changes no other
+    instance — also when the items (or the very list object handed over) belong to another instance -/
+theorem assign_separate (s : Store) (i j : Nat) (h : i ≠ j) (items : List Nat) :
+    (s.step (.assign i items)).1.content j = s.content j := by
+  simp only [Store.step, Store.content]; rw [List.getElem?_modify]; simp [h]
+
+theorem assign_installs (s : Store) (i : Nat) (hi : i < s.cells.length) (items : List Nat) :
+    (s.step (.assign i items)).1.content i = some items := by
+  simp only [Store.step, Store.content]; rw [List.getElem?_modify]; simp [hi]
+
+/-- after `b.items = a.items` the two instances hold the same objects in containers of their own:
+    adding to or removing from either leaves the other as it was -/
+theorem assign_then_edit_independent (s : Store) (a b : Nat) (hab : a ≠ b) (ca : List Nat) (ha : s.content a = some ca)
+    (hb : b < s.cells.length) (it k : Nat) :
+    let s1 := (s.step (.assign b ca)).1
+    (s1.step (.add a it)).1.content b = some ca ∧ (s1.step (.remove a k)).1.content b = some ca ∧
+    (s1.step (.add b it)).1.content a = some ca ∧ (s1.step (.remove b k)).1.content a = some ca := by
+  intro s1
+  have hb1 : s1.content b = some ca := assign_installs s b hb ca
+  have ha1 : s1.content a = some ca := by rw [assign_separate s b a (Ne.symm hab) ca]; exact ha
+  refine ⟨?_, ?_, ?_, ?_⟩
+  · rw [(separation s1 a b hab it 0).1]; exact hb1
+  · rw [(separation s1 a b hab 0 k).2]; exact hb1
+  · rw [(separation s1 b a (Ne.symm hab) it 0).1]; exact ha1
+  · rw [(separation s1 b a (Ne.symm hab) 0 k).2]; exact ha1
+
 /-- over any interleaving: an instance's content is changed only by operations addressed to it -/
 theorem instance_independent (s : Store) (ops : List SOp) (j : Nat) (hj : j < s.cells.length)
-    (h : ∀ op ∈ ops, ∀ it k, op ≠ .add j it ∧ op ≠ .remove j k) :
+    (h : ∀ op ∈ ops, ∀ it k items, op ≠ .add j it ∧ op ≠ .remove j k ∧ op ≠ .assign j items) :
     (s.run ops).content j = s.content j := by
   induction ops generalizing s with
   | nil => rfl
@@ -53,17 +80,21 @@ theorem instance_independent (s : Store) (ops : List SOp) (j : Nat) (hj : j < s.
       | add i it => simp [Store.step]
       | remove i k => simp [Store.step]
       | edit i k => simp only [Store.step]; split <;> simp
+      | assign i items => simp [Store.step]
     rw [ih (s.step op).1 (by omega) (fun o ho => h o (by simp [ho]))]
     cases op with
     | construct items => cases items <;> simp [Store.step, Store.content, List.getElem?_append_left hj]
     | decode items => simp [Store.step, Store.content, List.getElem?_append_left hj]
     | add i it =>
-      have : i ≠ j := fun e => (h (.add i it) (by simp) it 0).1 (by rw [e])
+      have : i ≠ j := fun e => (h (.add i it) (by simp) it 0 []).1 (by rw [e])
       exact (separation s i j this it 0).1
     | remove i k =>
-      have : i ≠ j := fun e => (h (.remove i k) (by simp) 0 k).2 (by rw [e])
+      have : i ≠ j := fun e => (h (.remove i k) (by simp) 0 k []).2.1 (by rw [e])
       exact (separation s i j this 0 k).2
     | edit i k => simp only [Store.step]; split <;> rfl
+    | assign i items =>
+      have : i ≠ j := fun e => (h (.assign i items) (by simp) 0 0 items).2.2 (by rw [e])
+      exact assign_separate s i j this items
 
 /-- decoding the same bytes twice gives two instances that can be edited independently -/
 theorem decode_twice_independent (s : Store) (items : List Nat) (it : Nat) :
@@ -108,6 +139,7 @@ def FreshOp (s : Store) : SOp → Prop
   | .construct (some items) => ∀ a ∈ items, ∀ c ∈ s.cells, a ∉ c
   | .decode items => ∀ a ∈ items, ∀ c ∈ s.cells, a ∉ c
   | .add _ it => ∀ c ∈ s.cells, it ∉ c
+  | .assign _ items => ∀ a ∈ items, ∀ c ∈ s.cells, a ∉ c
   | _ => True
 
 theorem mem_cells_of_content {s : Store} {i : Nat} {c : List Nat} (h : s.content i = some c) : c ∈ s.cells := by
@@ -206,6 +238,23 @@ theorem sep_step (s : Store) (op : SOp) (hs : Sep s) (hf : FreshOp s op) : Sep (
   | edit i k =>
     simp only [Store.step]
     split <;> exact hs
+  | assign i items =>
+    intro a b ca cb hab ha hb x hx
+    simp only [Store.step, Store.content] at ha hb
+    obtain ⟨ca0, hca, rfl⟩ := modify_get ha
+    obtain ⟨cb0, hcb, rfl⟩ := modify_get hb
+    have base := hs a b ca0 cb0 hab hca hcb
+    by_cases hia : i = a
+    · have hib : ¬ i = b := fun e => hab (hia ▸ e)
+      simp only [hia, if_true] at hx
+      simp only [hib, if_false]
+      exact hf x hx cb0 (List.mem_of_getElem? hcb)
+    · simp only [hia, if_false] at hx
+      by_cases hib : i = b
+      · simp only [hib, if_true]
+        intro hxi
+        exact hf x hxi ca0 (List.mem_of_getElem? hca) hx
+      · simp only [hib, if_false]; exact base x hx
 
 /-- the operations of a history all bring fresh objects -/
 def FreshOps : Store → List SOp → Prop
@@ -239,6 +288,9 @@ theorem edit_independent (ops : List SOp) (hf : FreshOps Store.empty ops) (i k j
       | some ci =>
         simp [hci] at hid
         exact hsep i j ci c h hci hc id (List.mem_of_getElem? hid)
+
+example : let s := Store.empty.run [.construct (some [1, 2]), .construct none, .assign 1 [1, 2], .add 0 3]
+          s.content 1 = some [1, 2] ∧ s.content 0 = some [1, 2, 3] := by decide
 
 /-- two decodes of the same bytes (two fresh sets of objects), one edited in place: the other one
     still encodes the original content, the edited one does not -/
